@@ -43,15 +43,20 @@
 (*   keepalive -keepalive          timeout   "default" | "short" (50 ms)   *)
 (*   connectto targets name e2e.invalid:PORT, -connect-to maps it          *)
 (*   laddr     -laddr=127.0.0.2    prom      -prometheus-addr              *)
+(*   maxconn   -max-connections (0 = unlimited): connections per host      *)
+(*   hosts     1 | 2: with connectto the entries alternate between the     *)
+(*             names E2E.invalid and E2Eb.invalid (both mapped to the      *)
+(*             server; letter case as written)                             *)
 (***************************************************************************)
 EXTENDS Integers, Sequences, FiniteSets, TLC
 
 K == 7
 DurMs == 100
+Min(a, b) == IF a <= b THEN a ELSE b
 
 Base == [server |-> "plain", trust |-> "na", format |-> "http", lazy |-> TRUE, bad |-> "none", rate |-> 0, maxw |-> 1, workers |-> 1,
          name |-> "", hdr |-> FALSE, body |-> FALSE, chunked |-> FALSE, maxbody |-> -1, redirects |-> "default", keepalive |-> TRUE,
-         timeout |-> "default", connectto |-> FALSE, laddr |-> FALSE, prom |-> FALSE]
+         timeout |-> "default", connectto |-> FALSE, laddr |-> FALSE, prom |-> FALSE, maxconn |-> 0, hosts |-> 1]
 
 Valid(c) ==
     /\ c.server \in {"plain", "tls", "unix"} /\ c.format \in {"http", "json"} /\ c.bad \in {"none", "late"}
@@ -61,6 +66,7 @@ Valid(c) ==
     /\ (c.prom => c.lazy /\ c.maxw = 1 /\ c.trust # "none" /\ c.bad = "none" /\ c.timeout = "default")   \* the waiting target must come last
     /\ (c.server = "unix" => ~c.connectto /\ ~c.laddr)
     /\ (c.connectto => c.server = "plain")
+    /\ c.maxconn \in {0, 1, 2} /\ c.hosts \in {1, 2} /\ (c.hosts = 2 => c.connectto)
 
 \* one factor at a time from the base, and from the eager base; pairs that interact
 Single ==
@@ -78,6 +84,11 @@ Single ==
           [Base EXCEPT !.server = "unix"], [Base EXCEPT !.server = "tls", !.trust = "insecure"], [Base EXCEPT !.server = "tls", !.trust = "rootcert"],
           [Base EXCEPT !.server = "tls", !.trust = "none"], [Base EXCEPT !.server = "tls", !.trust = "insecure", !.keepalive = FALSE],
           [Base EXCEPT !.format = "json", !.body = TRUE, !.hdr = TRUE, !.name = "n"],
+          [Base EXCEPT !.maxconn = 1], [Base EXCEPT !.maxconn = 1, !.maxw = 3], [Base EXCEPT !.connectto = TRUE, !.hosts = 2],
+          [Base EXCEPT !.lazy = FALSE, !.rate = 0, !.maxw = 3, !.maxconn = 1], [Base EXCEPT !.lazy = FALSE, !.rate = 0, !.maxw = 3, !.maxconn = 2],
+          [Base EXCEPT !.lazy = FALSE, !.rate = 0, !.maxw = 3, !.maxconn = 1, !.connectto = TRUE, !.hosts = 2],
+          [Base EXCEPT !.lazy = FALSE, !.rate = 0, !.maxw = 3, !.maxconn = 2, !.connectto = TRUE, !.hosts = 2],
+          [Base EXCEPT !.lazy = FALSE, !.rate = 0, !.maxw = 3, !.connectto = TRUE, !.hosts = 2],
           [Base EXCEPT !.lazy = FALSE, !.rate = 50, !.format = "json", !.body = TRUE, !.hdr = TRUE, !.name = "n", !.maxbody = 2]}
 Cases == {c \in Single : Valid(c)}
 ASSUME Cases = Single          \* every listed case is valid
@@ -98,8 +109,10 @@ RespSize(c, i) == IF SlowList(c) THEN 4
                          [] i = 7 -> (IF c.prom THEN 4 ELSE 2)
 StatusOf(c, i) == IF SlowList(c) THEN 200
                   ELSE IF i = 5 THEN 404 ELSE IF i = 4 /\ c.redirects = "nofollow" THEN 302 ELSE 200
+HostOf(c, i) == IF ~c.connectto THEN "127.0.0.1" ELSE IF c.hosts = 2 /\ i % 2 = 0 THEN "E2Eb.invalid" ELSE "E2E.invalid"
+\* what the attack can have in flight at once: the workers, and per host the connections
+Capacity(c) == IF c.maxconn = 0 THEN c.maxw ELSE Min(c.maxw, c.hosts * c.maxconn)
 TimesOut(c, i) == ~SlowList(c) /\ i = 6 /\ c.timeout = "short"
-Min(a, b) == IF a <= b THEN a ELSE b
 Captured(c, i) == IF c.maxbody < 0 THEN RespSize(c, i) ELSE Min(c.maxbody, RespSize(c, i))
 
 (*------------------------------ the contract ------------------------------*)
@@ -114,6 +127,7 @@ Hits(o) == SelectSeq(o.results, LAMBDA r : r.kind = "hit")
 Ends(o) == SelectSeq(o.results, LAMBDA r : r.kind = "end")
 ReqsOf(o, s) == {i \in 1..Len(o.reqs) : o.reqs[i].seq = s}
 Overlap(o, i) == Cardinality({j \in 1..Len(o.reqs) : o.reqs[j].start <= o.reqs[i].start /\ o.reqs[i].start < o.reqs[j].end})
+OverlapH(o, i) == Cardinality({j \in 1..Len(o.reqs) : o.reqs[j].host = o.reqs[i].host /\ o.reqs[j].start <= o.reqs[i].start /\ o.reqs[i].start < o.reqs[j].end})
 MaxConc(o) == IF o.reqs = <<>> THEN 0 ELSE CHOOSE m \in {Overlap(o, i) : i \in 1..Len(o.reqs)} : \A i \in 1..Len(o.reqs) : Overlap(o, i) <= m
 
 ResultOK(c, o, r) ==
@@ -136,12 +150,12 @@ RequestOK(c, o, q) ==
     /\ \E k \in 1..Len(o.results) : o.results[k].seq = q.seq /\ o.results[k].kind = "hit"      \* no request without a result
     /\ q.attack = c.name
     /\ q.tls = (c.server = "tls")
-    /\ (c.connectto => q.host = "e2e.invalid")                         \* the name of the URL, the mapped address was dialled
     /\ (c.laddr => q.ip = "127.0.0.2")
     /\ q.flag = (IF c.hdr THEN <<"a", "b">> ELSE <<>>)                  \* both -header flags, in order
     /\ LET r == o.results[CHOOSE k \in 1..Len(o.results) : o.results[k].seq = q.seq]
            i == r.idx
        IN /\ i \in 1..K
+          /\ (c.server # "unix" => q.host = HostOf(c, i))           \* the name of the URL as written; with -connect-to the mapped address was dialled
           /\ (q.path # "/redirect/0" =>
                 /\ q.method = MethodOf(c, i) /\ q.path = PathOf(c, i)
                 /\ q.body = BodyOf(c, i)
@@ -175,10 +189,12 @@ CmdOK(c, o) ==
        \* -max-workers bounds what the server sees at once; with an unlimited rate and slow answers the capacity is used
        \* (a request the client gave up on is still running in the server: cases with a timeout are left out)
        /\ (c.timeout = "default" => MaxConc(o) <= c.maxw)
-       /\ (SlowList(c) /\ Reaches(c) /\ Len(Hits(o)) >= 3 * c.maxw => MaxConc(o) = c.maxw)
+       /\ (SlowList(c) /\ Reaches(c) /\ Len(Hits(o)) >= 3 * c.maxw => MaxConc(o) = Capacity(c))
+       \* -max-connections bounds what one host sees at once
+       /\ (c.maxconn > 0 /\ c.timeout = "default" => \A i \in 1..Len(o.reqs) : OverlapH(o, i) <= c.maxconn)
        \* -keepalive=false: a connection per request; one sequential worker with keep-alive stays on one connection
        /\ (~c.keepalive /\ Reaches(c) /\ c.server # "unix" => Cardinality({o.reqs[j].conn : j \in 1..Len(o.reqs)}) = Len(o.reqs))
-       /\ (c.keepalive /\ c.maxw = 1 /\ c.timeout = "default" /\ Reaches(c) /\ c.server # "unix" => Cardinality({o.reqs[j].conn : j \in 1..Len(o.reqs)}) = 1)
+       /\ (c.keepalive /\ c.maxw = 1 /\ c.timeout = "default" /\ Reaches(c) /\ c.server # "unix" => Cardinality({o.reqs[j].conn : j \in 1..Len(o.reqs)}) = c.hosts)
        \* -prometheus-addr: by the time the last target is answered the exporter has counted the six results before it
        /\ (c.prom => o.prom_count >= 6)
 =============================================================================
